@@ -85,7 +85,7 @@ def _f10(cex):
 
 @matcher("k3_event_source_examines_offset_L")
 def _k3(cex):
-    return cex.get("kind") == "event_source_ne_fifo"
+    return cex.get("kind") == "event_source_ne_fifo" and cex.get("both_equal_their_naive_spec") is True
 
 
 @matcher("k5_npedf_never_releasing_task")
